@@ -35,8 +35,16 @@ def read(source, format=None):
     if format:
         return ProvDocument.deserialize(source=source, format=format.lower())
 
+    content = None
+    if hasattr(source, "read"):
+        # a stream can only be consumed once: read it here and give every
+        # attempt the whole content
+        content = source.read()
+
     for format in serializers:
         try:
+            if content is not None:
+                return ProvDocument.deserialize(content=content, format=format)
             return ProvDocument.deserialize(source=source, format=format)
         except:
             pass
